@@ -110,6 +110,8 @@ class ExprMixin:
                 s.assume(tag == i)
                 v = self._init_glob_val(s, module, name, alt, i)
                 s.globs[key] = v
+                if decl.inv:
+                    s.assume(self.spec_eval(decl.inv, s, {name: v}))
                 s.notes.append(f"{name}:{alt!r}")
                 out.append((s, v))
             return out
@@ -460,7 +462,14 @@ class ExprMixin:
     def ev_BoolOp(self, node, st):
         is_and = isinstance(node.op, ast.And)
         if self.spec:
-            vals = [self._one(self.ev(v, st)) for v in node.values]
+            vals = []
+            for vn in node.values:
+                v = self._one(self.ev(vn, st))
+                vals.append(v)
+                # lazy on constants: later operands may be ill-kinded
+                tv = z3.simplify(self.truth(v, st))
+                if (is_and and z3.is_false(tv)) or (not is_and and z3.is_true(tv)):
+                    break
             if all(isinstance(v, VBool) for v in vals):
                 ts = [v.t for v in vals]
                 return [self.val(st, VBool(z3.And(ts) if is_and else z3.Or(ts)))]
@@ -707,6 +716,10 @@ class ExprMixin:
             f = z3.Function("obj_contains", ty.IntS, ty.IntS, ty.BoolS)
             return f(coll.t, to_obj_term(x))
         if isinstance(coll, VRef):
+            d = self.schema.classes.get(coll.cls)
+            hook = getattr(d, "contains", None)
+            if hook is not None:
+                return hook(self, coll, x, st)
             f = z3.Function("obj_contains", ty.IntS, ty.IntS, ty.BoolS)
             return f(coll.t, to_obj_term(x))
         raise EngineError(f"`in` on {coll!r}")
@@ -992,7 +1005,7 @@ class ExprMixin:
         mem = fresh_const("cmem", z3.ArraySort(dsort, ty.BoolS))
         length = fresh_const("clen", ty.IntS)
         st.assume(length >= 0)
-        if not gen.ifs:
+        if not gen.ifs and kind != "set":
             st.assume(length == it.length)
         else:
             st.assume(length <= it.length)
@@ -1037,6 +1050,10 @@ class ExprMixin:
         """View of a value as an abstract collection, if it has one."""
         if isinstance(v, VAbs):
             return v
+        if isinstance(v, VSeq):
+            es = v.elem.comps[0]
+            k = z3.Const(fresh_name("sk"), es)
+            return VAbs(z3.Lambda([k], z3.Contains(v.t, z3.Unit(k))), z3.Length(v.t), v.elem)
         if isinstance(v, VLoc) and st.loc(v).kind in ("list", "set"):
             data = st.loc(v).data
             if not data:
